@@ -194,9 +194,16 @@ fn main() {
 			},
 		}
 	};
+	// 0 / 1 / 2 are the check's own verdicts. Anything else (101: a panic outside the guarded calls, e.g. the
+	// harness choking on a value the subject must never produce, like a `String` that is not UTF-8) is
+	// handled like a death: on the unchanged tree no check ends that way.
+	let mut abnormal_exit: Option<i32> = None;
 	if !timed_out {
 		if let Some(code) = status.code() {
-			std::process::exit(code);
+			if matches!(code, 0 | 1 | 2) {
+				std::process::exit(code);
+			}
+			abnormal_exit = Some(code);
 		}
 	}
 	// killed by a signal (or by the watchdog)
@@ -214,16 +221,19 @@ fn main() {
 		}
 	}
 	units.sort();
-	eprintln!("[{}] checking process died with signal {}; units in flight: {:?}", id, sig, units);
+	match abnormal_exit {
+		Some(code) => eprintln!("[{}] checking process ended abnormally with exit code {}; units in flight: {:?}", id, code, units),
+		None => eprintln!("[{}] checking process died with signal {}; units in flight: {:?}", id, sig, units),
+	}
 	if DEATH_IS_VIOLATION.contains(&id.as_str()) && replay.is_none() {
 		let body = serde_json::json!({
 			"property": id, "sub": format!("{}.death", id), "key": format!("{}|process-death", id),
-			"detail": if timed_out { format!("the check did not terminate within {} s (a decode that does not return)", limit_s) } else { format!("checking process died with signal {}", sig) },
+			"detail": if timed_out { format!("the check did not terminate within {} s (a decode that does not return)", limit_s) } else if let Some(code) = abnormal_exit { format!("checking process ended abnormally with exit code {} (a panic outside the guarded calls)", code) } else { format!("checking process died with signal {}", sig) },
 			"case": {"sub": format!("{}.death", id), "units_in_flight": units, "tier": tier.name()},
 		});
 		let dir = format!("{}/replays/{}", verif_root(), id);
 		let _ = std::fs::create_dir_all(&dir);
-		let path = if timed_out { format!("{}/no-termination.json", dir) } else { format!("{}/death-signal-{}.json", dir, sig) };
+		let path = if timed_out { format!("{}/no-termination.json", dir) } else if let Some(code) = abnormal_exit { format!("{}/death-exit-{}.json", dir, code) } else { format!("{}/death-signal-{}.json", dir, sig) };
 		let _ = std::fs::write(&path, serde_json::to_string_pretty(&body).unwrap());
 		println!("VIOLATION property={} replay={}", id, path);
 		std::process::exit(1);
